@@ -171,7 +171,7 @@ class Source:
 
     def ctor(self, header_re, scope=None):
         """constructor: header, then `: m1(args), m2{args}, ...`, then the body.  Returns function()'s dict plus
-        inits = [(member, args)] in textual order (R17)."""
+        inits = [(member, args)] in textual order (R19)."""
         lo, hi = self.scope(scope) or (0, len(self.text))
         ms = list(re.finditer(header_re, self.text[lo:hi]))
         if len(ms) != 1:
